@@ -24,8 +24,6 @@ STOP_PREFIX = ("compiler::ast::r#type::", "compiler::ast::class::ClassType", "co
 
 # declarations, not uses (each with the reason it is not a captured variable)
 EXEMPT = {
-    ("compiler::ast::import::Import", "Standard", "store"): "declares the module name; nothing is read",
-    ("compiler::ast::import::Import", "Names", "names"): "declares the imported names; nothing is read",
     ("compiler::ast::class::member_function::MemberFunction", None, "ident"): "the method's own name (a declaration inside the class body frame)",
     ("compiler::ast::class::member_variable::MemberVariable", None, "ident"): "the field's own name (a declaration inside the class body frame)",
     ("compiler::ast::export::Export", None, "exports"): "export bookkeeping (weak reference to the module's export list), not code",
@@ -168,8 +166,9 @@ def run(F, rep, rule):
                         rep.ob(rule, "%s is visited by the dependency walk" % label, "exempt", ex, where, fn=tname, key=key)
                     else:
                         rep.ob(rule, "%s is visited by the dependency walk" % label, "violated",
-                               "field of type `%s` can contain variable uses but neither dependencies() nor supplies() of %s reads it: "
-                               "a closure whose body uses a variable only there does not capture it (run-time `load before store`)" % (
+                               "field of type `%s` can contain variable uses or name a variable the statement declares, but neither dependencies() nor "
+                               "supplies() of %s reads it: a closure whose body uses a variable only there does not capture it (run-time `load before "
+                               "store`), and a name declared there is taken for a captured one (make_function fails on the missing capture)" % (
                                    f["ty"].replace("compiler::ast::", ""), tname.split("::")[-1]), where, fn=tname, key=key)
     rep.floor(rule + " types with a dependency walk", n_types, 20)
     rep.floor(rule + " code-bearing fields", n_fields, 40)
